@@ -147,6 +147,43 @@ def main():
             rc = 1
     print("OBLIGATION entry_points_free_of_static_state %s %d module-level / table-based entry points examined, %d reach a mutable static" % ("OK" if not bad else "FAIL", len(exported), bad))
     print("OBLIGATION statics_inventory_size OK %d non-const statics, %d call-graph edges, %d functions" % (len(statics), sum(len(v) for v in edges.values()), len(funcs)))
+    # (2b) dispatch (C07): the functions stored in each module slot / table "function" field, over BOTH outcomes of the CPU
+    # feature tests (every assignment in the fillers counts), must be exactly the committed families of interchangeable
+    # implementations -- members of one family are the functions checked against one contract (or explicitly not covered)
+    seen = {}
+    cur = None
+    for l in gf0.splitlines():
+        m = re.match(r"^(\S+) /\* \S+ \*/$", l)
+        if m:
+            cur = m.group(1); continue
+        if not cur or "ASSIGN" not in l:
+            continue
+        m = re.search(r"func\.(\w+) := (?:address_of\()?(\w+)", l)
+        if m:
+            seen.setdefault("module.func." + m.group(1), set()).add(m.group(2))
+        m = re.search(r"(?:->|\.)function := (?:address_of\()?(\w+)", l)
+        if m:
+            seen.setdefault(cur + ".function", set()).add(m.group(1))
+        m = re.search(r"::resf := (?:address_of\()?(\w+)", l)
+        if m and m.group(1) not in ("resf",):
+            seen.setdefault(cur + ".function", set()).add(m.group(1))
+    # rule (tolerates new variants, catches cross-wiring): every function stored in slot S / by table constructor init_X_precomp
+    # carries the stem (S resp. X) in its name, e.g. slot vec_znx_add <- vec_znx_add_ref | vec_znx_add_avx,
+    # init_reim_to_znx64_precomp <- reim_to_znx64_ref | reim_to_znx64_avx2_bnd50_fma | ...
+    if os.environ.get("VERIF_DUMP_DISPATCH"):
+        json.dump({k: sorted(v) for k, v in sorted(seen.items())}, open(os.environ["VERIF_DUMP_DISPATCH"], "w"), indent=1)
+    nbad = 0
+    for k in sorted(seen):
+        stem = k[len("module.func."):] if k.startswith("module.func.") else re.sub(r"^(init|new)_", "", k[:-len(".function")])
+        stem = re.sub(r"_precomp$", "", stem)
+        for t in sorted(seen[k]):
+            if t == k[:-len(".function")] or t in ("resf",):
+                continue
+            if stem not in t:
+                nbad += 1
+                print("OBLIGATION dispatch_%s FAIL stores %s, which is not an implementation of %s" % (re.sub(r"\W+", "_", k), t, stem))
+                rc = 1
+    print("OBLIGATION dispatch_tables %s %d dispatch slots / table function fields, %d stored functions examined; each carries its slot's stem" % ("OK" if not nbad else "FAIL", len(seen), sum(len(v) for v in seen.values())))
     # (3) cache keys of the *_simple functions (C15): caches indexed by log2m(m) only must not depend on other arguments
     for fn, key in ALLOW["cache_keys"].items():
         print("OBLIGATION cache_key_%s %s cache consulted under key (%s); table-building arguments: %s" % (fn, "OK" if key["ok"] else "FAIL", key["key"], key["args"]))
